@@ -478,3 +478,94 @@ def zset_history(ctx, srv, g, n, label='zrand'):
     if not srv.alive():
         srv.restart()
     return ok
+
+
+class PubSubGen:
+    """C14 traffic for several clients: returns (client index, argv) or ('close', client index)."""
+
+    def __init__(self, rnd, nclients=4):
+        self.rnd = rnd
+        self.n = nclients
+        self.chans = [b'news', b'mews', b'n', b'news.sport', b'\xffbin', b'a b']
+        self.pats = [b'*', b'n*', b'?ews', b'[mn]ews', b'news.*', b'x*', b'n?']
+        self.msgs = [b'hello', b'', b'\r\n', b'\x00\xff', b'm' * 50, b'1']
+
+    def next(self):
+        r = self.rnd
+        c = r.randrange(self.n)
+        k = r.randrange(20)
+        if k < 4:
+            return c, [b'SUBSCRIBE'] + [r.choice(self.chans) for _ in range(r.randrange(1, 3))]
+        if k < 6:
+            return c, [b'PSUBSCRIBE'] + [r.choice(self.pats) for _ in range(r.randrange(1, 3))]
+        if k == 6:
+            return c, [b'UNSUBSCRIBE'] + [r.choice(self.chans) for _ in range(r.randrange(0, 3))]
+        if k == 7:
+            return c, [b'PUNSUBSCRIBE'] + [r.choice(self.pats) for _ in range(r.randrange(0, 2))]
+        if k == 8:
+            return c, [b'UNSUBSCRIBE']
+        if k == 9:
+            return ('close', c) if r.random() < 0.5 else (c, [b'PUNSUBSCRIBE'])
+        return c, [b'PUBLISH', r.choice(self.chans), r.choice(self.msgs)]
+
+
+def pubsub_history(ctx, srv, g, n, label='pubsub'):
+    s = fresh_session(ctx, srv, label)
+    try:
+        cmap = {}
+        for j in range(n):
+            st = g.next()
+            if st[0] == 'close':
+                c = st[1]
+                if cmap.get(c) in s.clients:
+                    s.poll(cmap[c])
+                    s.close(cmap[c])
+                    del cmap[c]
+                continue
+            c, a = st
+            if cmap.get(c) not in s.clients:
+                cmap[c] = s.open()
+            s.cmd(cmap[c], a)
+            if a[0] == b'PUBLISH':
+                s.poll_all()
+        s.quiesce()
+    except (ServerDied, OSError):
+        if not srv.alive():
+            s.trace.emit({'k': 'crash', 'status': srv.exit_status()})
+    s.close_all()
+    ok = ctx.validate(s.trace, label=label)
+    if not srv.alive():
+        srv.restart()
+    return ok
+
+
+def replay_pubsub_paths(ctx, srv, paths, label='gen'):
+    """TLC-generated <<conn, argv>> paths over the pub/sub catalogue; pushes are polled after every PUBLISH."""
+    i = 0
+    ok = True
+    while i < len(paths) and ok:
+        s = fresh_session(ctx, srv, label)
+        try:
+            while i < len(paths) and s.trace.n < 8000:
+                cmap = {}
+                for c, a in paths[i]:
+                    if c not in cmap or cmap[c] not in s.clients:
+                        cmap[c] = s.open()
+                    s.cmd(cmap[c], a)
+                    if a[0] == b'PUBLISH':
+                        s.poll_all(0.003)
+                s.quiesce(0.01)
+                for c in list(cmap.values()):
+                    if c in s.clients:
+                        s.close(c)
+                i += 1
+        except (ServerDied, OSError):
+            ok = False
+            if not srv.alive():
+                s.trace.emit({'k': 'crash', 'status': srv.exit_status()})
+        s.close_all()
+        if not ctx.validate(s.trace, label='%s[..%d]' % (label, i)):
+            ok = False
+        if not srv.alive():
+            srv.restart()
+    return ok
